@@ -51,7 +51,9 @@ func (rg *rootGeneratorSimple) generate() ([]*Node, error) {
 			return nil, errNilStack
 		}
 
-		stack.dfs(currentNode)
+		if !stack.dfs(currentNode) {
+			return nil, &inputFormatError{row: rg.scanner.Text()}
+		}
 	}
 
 	return roots, rg.scanner.Err()
@@ -94,7 +96,10 @@ func (rg *rootGeneratorSimple) generateIter() func(yield func(*Node, error) bool
 				return
 			}
 
-			stack.dfs(currentNode)
+			if !stack.dfs(currentNode) {
+				yield(nil, &inputFormatError{row: rg.scanner.Text()})
+				return
+			}
 		}
 
 		if err := rg.scanner.Err(); err != nil {
@@ -179,7 +184,10 @@ func (rg *rootGeneratorPipeline) worker(ctx context.Context, wg *sync.WaitGroup,
 					return
 				}
 
-				nodes.dfs(currentNode)
+				if !nodes.dfs(currentNode) {
+					errc <- &inputFormatError{row: sc.Text()}
+					return
+				}
 			}
 			if err := sc.Err(); err != nil {
 				errc <- err
